@@ -14,6 +14,13 @@
 //	    third `#`), the real scanner reports the same (code, i) on text[:i+1+w] + ext for every extension ext. So the
 //	    byte at the reported position (plus w bytes) cannot be continued, whatever follows.
 //
+//	(c) CUT OF AN ACCEPTED TEXT (Lean: C17_schema_prefix_of_accepted): a truncated base text that the real scanner rejects
+//	    is rejected at its LAST byte.
+//	(w) REGRESSION WITNESS of the known finding (Lean: C17_schema_error_prefix_viable_full_false,
+//	    C17_schema_witness_reported_at_10, C17_schema_witness_prefix_dead): the real scanner reports `[1 //{#c\n}]` at
+//	    offset 10 (code 301) and rejects `[1 //{#c\n}` + ext for every single byte ext, for closing candidates and for
+//	    generated / random extensions; the same (not proved in Lean) from the first dead byte on: `[1 //{#` + ext.
+//
 // Known finding recognised structurally (counted, not a diff): K-C17-comment-in-inline-annotation — the prefix holds
 // a user comment `#` inside the rule object of an INLINE annotation; the real scanner forgets that it is inside an
 // inline annotation, errors come late and the prefix before them cannot be completed.
@@ -456,6 +463,52 @@ func minimise(text []byte, comp string, ext []byte) ([]byte, string, string, fin
 	return cur, cr, cm, cf
 }
 
+// witnessStream: the regression witness of K-C17-comment-in-inline-annotation on the real scanner
+func witnessStream(rep *vh.Report, nRand int) {
+	pre := []byte("[1 //{#c\n}")
+	dead6 := []byte("[1 //{#")
+	full := append(append([]byte{}, pre...), ']')
+	if r := real(full); r != "ERR 301 10" {
+		rep.AddDiff(vh.Diff{Component: "c17s-witness", Input: q(full), Impl: "real " + r, Model: "ERR 301 10 (Lean: C17_schema_witness_reported_at_10)",
+			Note: "the regression witness of " + knownClass + " is no longer reported at offset 10"})
+	}
+	rep.Stat("witness_reported_checks")
+	var exts [][]byte
+	exts = append(exts, []byte{})
+	for b := 0; b < 256; b++ {
+		exts = append(exts, []byte{byte(b)})
+	}
+	for _, c := range []string{"]", "\n]", "}]", "}\n]", "\n}]", " - note\n]", "*/]", "\n,2]", ",2]", "\"a\":1}]", "\n\"a\":1}\n]", "###]", "\n###\n]", "//\n]", "// {}\n]", "/* {} */]", "\n]//{}", "]\n\n"} {
+		exts = append(exts, []byte(c))
+	}
+	r := vh.NewRand(170999001)
+	for i := 0; i < nRand; i++ {
+		if i%2 == 0 {
+			exts = append(exts, genFragment(r))
+		} else {
+			exts = append(exts, randExt(r))
+		}
+	}
+	for _, e := range exts {
+		t := append(append([]byte{}, pre...), e...)
+		rep.Stat("witness_prefix_ext_checks")
+		if r1 := real(t); !isFail(r1) {
+			rep.AddDiff(vh.Diff{Component: "c17s-witness", Input: q(t), Impl: "real accepted", Model: "rejected (Lean: C17_schema_witness_prefix_dead)",
+				Note: "a continuation of the prefix before the reported byte of the witness is accepted"})
+			break
+		}
+	}
+	for _, e := range exts {
+		t := append(append([]byte{}, dead6...), e...)
+		rep.Stat("witness_dead6_ext_checks")
+		if r1 := real(t); !isFail(r1) {
+			rep.AddDiff(vh.Diff{Component: "c17s-witness-dead6", Input: q(t), Impl: "real accepted", Model: "rejected (first dead byte of the witness is offset 6)",
+				Note: "a continuation of `[1 //{#` is accepted"})
+			break
+		}
+	}
+}
+
 func Run(args []string) {
 	// `--seed N` / `--tier quick|thorough` override VERIF_SEED / VERIF_TIER (the harness-wide way to pass them)
 	for i := 0; i < len(args); i++ {
@@ -479,6 +532,8 @@ func Run(args []string) {
 	chunk := 4000
 	rep := vh.NewReport("c17-schema-viable", fmt.Sprintf("C17 for the schema scanner: %d generated schema texts accepted by the real scanner (objects, arrays, scalars, type / key shortcuts, inline and multi-line annotations, # and ### comments, LF/CRLF/CR), each damaged %d times at one place (replace by a byte of %q or a random byte / delete / insert / truncate); for every damaged text with a real error (code,i): (0) model error = real error, (a) the real scanner accepts text[:cut]+completion(model) and so does the model, (b) for codes 301/302/304 the real scanner reports the same (code,i) on text[:i+1+w]+ext for %d extensions (empty, a valid fragment, random bytes); nontrivial = distinct damaged text on which the real scanner reports an error",
 		nBases, perBase, damageAlphabet, kExt))
+
+	witnessStream(rep, vh.Pick(2000, 20000))
 
 	sigs := map[string]struct{}{}
 	var knownExamples []string
@@ -604,6 +659,17 @@ func Run(args []string) {
 					sigs[fmt.Sprintf("%d|%s", code, d.text[lo:hi])] = struct{}{}
 				} else {
 					rep.Stat("real_crash")
+				}
+				if d.kind == "truncate" && ok {
+					// (c) a rejected cut of an accepted text is rejected at its last byte
+					rep.Stat("checks_c_cut_last_byte")
+					if idx != len(d.text)-1 {
+						rep.AddDiff(vh.Diff{Component: "c17s-cut-last-byte", Input: q(d.text), Impl: "real " + d.real,
+							Model: fmt.Sprintf("position %d (Lean: C17_schema_prefix_of_accepted)", len(d.text)-1),
+							Note: "a cut of an accepted text is rejected before its last byte"})
+					} else if code != 303 {
+						rep.Stat("cut_rejected_with_invalid_character_at_last_byte")
+					}
 				}
 				res := d.res
 				rep.Stats["checks_a_viability"] += res.aChecks
